@@ -443,7 +443,7 @@ func (d *Decls) heapAxioms() string {
 	for _, n := range names {
 		if d.isRef != nil && d.isRef[n] {
 			c := d.entryHeaps[n]
-			b.WriteString(fmt.Sprintf("(assert (forall ((r Int)) (! (=> (<= r |wm@0|) (<= (select %s r) |wm@0|)) :pattern ((select %s r)))))\n", c, c))
+			b.WriteString(fmt.Sprintf("(assert (forall ((r Int)) (! (=> (<= r |wm@0|) (and (<= (select %s r) |wm@0|) (>= (select %s r) 0))) :pattern ((select %s r)))))\n", c, c, c))
 		}
 		if d.isRef != nil && d.isRef["neg:"+n] {
 			// identities of xsync.Map values embedded in structs live below zero
